@@ -278,7 +278,7 @@ func (eng *Engine) verifyFunction(p *Pkg, key string, ct *Contract) (res *FuncRe
 			case specErr:
 				res.Unsupported = "contract does not resolve: " + e.msg
 			default:
-				panic(r)
+				res.Unsupported = fmt.Sprintf("internal error of the generator: %v", r)
 			}
 		}
 	}()
@@ -422,6 +422,7 @@ func (eng *Engine) verifyFunction(p *Pkg, key string, ct *Contract) (res *FuncRe
 		}
 	}
 	res.Paths = fc.npaths
+	res.ReqSat = append(res.ReqSat, fc.canaries...)
 	return res
 }
 
@@ -448,6 +449,8 @@ func (fc *FnCtx) addAxioms() {
 func (fc *FnCtx) finish(st *State, vals []Val, panicked bool) {
 	for _, o := range fc.runDefers(st, 0) {
 		fc.npaths++
+		// reachability canary: at least one exit path of the function must be satisfiable
+		fc.canaries = append(fc.canaries, &Obligation{Name: fmt.Sprintf("%s#vacuity:exit", fc.key), Kind: "vacuity", Goal: "false", PC: append([]string(nil), o.st.pc...), Vacuity: true})
 		fc.checkPost(o.st, vals, panicked)
 	}
 }
@@ -715,6 +718,7 @@ func (fc *FnCtx) execRangeFunc(st *State, s *ast.RangeStmt, label string) []Outc
 	extra := func(i string) map[string]Val { return map[string]Val{"$i": {i, intT}, "$len": {ln, intT}} }
 	fc.checkInvs(st, n, "init", extra("0"), s.Pos())
 	h := st.clone()
+	fc.havocFor = n
 	fc.havocLoop(h, s.Body, nil)
 	i := fc.smt.fresh("ri", "Int")
 	h.assume(fmt.Sprintf("(and (<= 0 %s) (<= %s %s))", i, i, ln))
